@@ -79,6 +79,10 @@ func (a Float) M__repr__() (Object, error) {
 // FloatFromString turns a string into a Float
 func FloatFromString(str string) (Object, error) {
 	str = strings.TrimSpace(str)
+	// ParseFloat also takes hexadecimal floats and underscores which Python doesn't
+	if strings.ContainsAny(str, "xX_") {
+		return nil, ExceptionNewf(ValueError, "invalid literal for float: '%s'", str)
+	}
 	f, err := strconv.ParseFloat(str, 64)
 	if err != nil {
 		if numErr, ok := err.(*strconv.NumError); ok {
@@ -400,7 +404,11 @@ func floatPow(a, b Float) (Object, error) {
 	}
 	if x < 0 && !math.IsInf(x, 0) && !math.IsInf(y, 0) && !math.IsNaN(y) && y != math.Floor(y) {
 		// negative number to a fractional power has a complex result
-		return Complex(complex(x, 0)).M__pow__(Complex(complex(y, 0)), None)
+		res, err := Complex(complex(x, 0)).M__pow__(Complex(complex(y, 0)), None)
+		if c, ok := res.(Complex); ok && (math.IsInf(real(c), 0) || math.IsInf(imag(c), 0)) {
+			return nil, ExceptionNewf(OverflowError, "complex exponentiation")
+		}
+		return res, err
 	}
 	r := math.Pow(x, y)
 	if math.IsInf(r, 0) && !math.IsInf(x, 0) && !math.IsInf(y, 0) && x != 0 {
